@@ -635,6 +635,20 @@ macro_rules! constructors_kind {
             j(format!("{k}::from_slice/{case}"), guarded(|| V::from_slice(&long[..m])).map(|v| v.to_vec()), exp.clone());
             j(format!("FromIterator for {k}<T>/{case}"), guarded(|| V::from_iter(long[..m].iter().cloned())).map(|v| v.to_vec()), exp.clone());
         }
+        // a stream read vector by vector: collecting through `by_ref()` takes exactly dim items, so
+        // the second vector continues where the first stopped and the rest stays in the stream
+        {
+            let stream: Vec<Tag> = (0..2 * n + 2).map(g).collect();
+            let mut it = stream.iter().cloned();
+            let first = guarded(|| V::from_iter(it.by_ref())).map(|v| v.to_vec());
+            let second = guarded(|| V::from_iter(it.by_ref())).map(|v| v.to_vec());
+            let rest: Vec<Tag> = it.collect();
+            let got = match (first, second) {
+                (Ok(a), Ok(b)) => Ok(a.into_iter().chain(b).chain(rest).collect::<Vec<Tag>>()),
+                (a, b) => Err(a.err().or(b.err()).unwrap()),
+            };
+            j(format!("FromIterator for {k}<T>/stream"), got, stream.clone());
+        }
         // Display prints the elements in element order
         {
             let api = format!("Display for {k}<T>");
@@ -1270,7 +1284,7 @@ fn main() {
     {
         let mut s = Sub::new(
             "constructors",
-            "new, broadcast, From<T>, zero, one, Zero::zero, One::one, From<tuple>, From<array>, into_tuple, into_array, from_slice and FromIterator with 0 / dim-1 / dim / dim+3 items (missing items = Default), Display (numbers in the rendered text, in order), iota on i32 — for the 13 kinds on distinct Tag tokens, lanes read through the public fields; distinct = (kind, function, case)",
+            "new, broadcast, From<T>, zero, one, Zero::zero, One::one, From<tuple>, From<array>, into_tuple, into_array, from_slice and FromIterator with 0 / dim-1 / dim / dim+3 items (missing items = Default) and two vectors collected one after the other from one stream through by_ref() (exactly dim items taken each time), Display (numbers in the rendered text, in order), iota on i32 — for the 13 kinds on distinct Tag tokens, lanes read through the public fields; distinct = (kind, function, case)",
         )
         .with_floor(170)
         .require(&["Vec64::new", "From<tuple> for Vec64<T>", "Vec32::into_tuple", "From<[T; N]> for Rgb<T>", "Display for Rgba<T>", "FromIterator for Uvw<T>/short", "Extent2::from_slice/long", "Vec16::iota", "Uv::broadcast"]);
